@@ -8588,7 +8588,8 @@ def aten_repeat_interleave_Tensor(
 def aten_reshape(self: TTensor, shape: Sequence[INT64]) -> TTensor:
     """reshape(Tensor(a) self, SymInt[] shape) -> Tensor(a)"""
     shape = common_ops.merge_dims(shape)
-    return op.Reshape(self, shape)
+    # allowzero: a 0 in `shape` is a size-0 dimension in PyTorch, not "copy the input dimension"
+    return op.Reshape(self, shape, allowzero=True)
 
 
 def aten_reshape_as(self: TensorType, other: TensorType) -> TensorType:
@@ -8754,7 +8755,7 @@ def _aten_roll_shift_no_dim_onnx(self: TTensor, shift: int) -> TTensor:
     prefix = op.Slice(self_flatten, slice_length, op.Reshape(op.Size(self_flatten), neg_1))
     # Concat first+second together, e.g. [D,A,B,C]
     result = op.Concat(prefix, suffix, axis=0)
-    return op.Reshape(result, op.Shape(self))
+    return op.Reshape(result, op.Shape(self), allowzero=True)
 
 
 def _aten_roll_shift_and_dim_onnx(self: TTensor, shift: int, dim: int) -> TTensor:
